@@ -21,7 +21,7 @@ if ! git apply $SRC/patch.diff >> $LOG 2>&1; then echo "$ID: PATCH DOES NOT APPL
 timeout 900 cargo test --offline $FEAT --test $T >> $LOG 2>&1; MUT=$?
 # 3. full suite with the mutant (demo excluded)
 rm tests/$T.rs
-if [ -f /tmp/wt/verify_quick ]; then echo "full suite skipped here (time): see the sub-agent's own run in README.md" > $SRC/suite.log; SUITE=skipped; else timeout 3000 cargo nextest run --workspace --no-fail-fast --test-threads 8 --offline > $SRC/suite.log 2>&1; SUITE=$?; fi
+if [ -f /tmp/wt/verify_quick ] && [ -z "${VERIFY_FULL:-}" ]; then echo "full suite skipped here (time): see the sub-agent's own run in README.md" > $SRC/suite.log; SUITE=skipped; else timeout 3000 cargo nextest run --workspace --no-fail-fast --test-threads 8 --offline > $SRC/suite.log 2>&1; SUITE=$?; fi
 tail -3 $SRC/suite.log >> $LOG
 SUMMARY=$(grep -E "Summary" $SRC/suite.log | tail -1)
 echo "$ID: demo_on_base_exit=$BASE demo_on_mutant_exit=$MUT suite_exit=$SUITE :: $SUMMARY" | tee -a $LOG
